@@ -368,56 +368,90 @@ def fresh_child(ctx, fc, v, at, fc_of, depth=0):
 
 
 def deepen_ok(fc, fn):
-    """Partition.deepen: iterates the deepest layer (depth = self.depth read before the loop), expands
-    every cell of it once, newlayer=True exactly for the first."""
-    src = [norm_src(s) for s in fn.body if not (isinstance(s, ast.Expr) and isinstance(s.value, ast.Constant))]
-    loops = [s for s in fn.body if isinstance(s, ast.For)]
-    if len(loops) != 1:
+    """Partition.deepen: expands every cell of the deepest layer exactly once - the layer being fixed before the
+    first expansion (depth read into a local, or a snapshot copy of the layer) - with newlayer true exactly for the
+    first cell."""
+    body = [s for s in fn.body if not (isinstance(s, ast.Expr) and isinstance(s.value, ast.Constant))]
+    loops = [s for s in body if isinstance(s, ast.For)]
+    if len(loops) != 1 or body[-1] is not loops[0]:
         return False, "deepen is not a single loop over the deepest layer"
     loop = loops[0]
-    dvar = None
-    for s in fn.body:
-        if isinstance(s, ast.Assign) and len(s.targets) == 1 and isinstance(s.targets[0], ast.Name) and \
-                norm_src(s.value) in ("self.depth", "self.get_depth()"):
-            dvar = s.targets[0].id
+    pre = body[:-1]
+    local = {}
+    for s in pre:
+        if isinstance(s, ast.Assign) and len(s.targets) == 1 and isinstance(s.targets[0], ast.Name):
+            local[s.targets[0].id] = norm_src(s.value)
+        else:
+            return False, "unexpected statement before the loop: %s" % norm_src(s)
+    DEPTH = ("self.depth", "self.get_depth()")
+
+    def is_deepest_layer_expr(src, allow_live):
+        """src denotes node_list[<deepest depth>]; allow_live: self.depth may be read in place (only valid before the loop)."""
+        for dv, dsrc in list(local.items()):
+            if dsrc in DEPTH and src in ("self.node_list[%s]" % dv, "self.get_layer_node_list(%s)" % dv, "self.get_node_list()[%s]" % dv):
+                return True
+        if allow_live and src in ["self.node_list[%s]" % d for d in DEPTH] + ["self.get_layer_node_list(%s)" % d for d in DEPTH]:
+            return True
+        return False
     it = norm_src(loop.iter)
-    layer_src = "self.node_list[%s]" % (dvar or "self.depth")
-    calls = calls_in(loop, "make_children")
-    if dvar is None:
-        return False, "the deepest depth is not read into a local before the loop (self.depth changes during the loop)"
-    if it == "range(len(%s))" % layer_src and isinstance(loop.target, ast.Name):
+    i = parent = None
+    if it.startswith("range(len(") and it.endswith("))") and isinstance(loop.target, ast.Name):
+        lay = it[len("range(len("):-2]
+        if not is_deepest_layer_expr(lay, False):
+            return False, "the loop ranges over '%s', which is re-evaluated while self.depth changes" % lay
         i = loop.target.id
-        # parent = self.node_list[depth][i]
-        pdef = [s for s in loop.body if isinstance(s, ast.Assign) and norm_src(s.value) == "%s[%s]" % (layer_src, i)]
+        pdef = [s for s in loop.body if isinstance(s, ast.Assign) and norm_src(s.value) == "%s[%s]" % (lay, i)]
         if len(pdef) != 1:
-            return False, "loop body does not take parent = %s[%s]" % (layer_src, i)
-        pvar = norm_src(pdef[0].targets[0])
-    elif it == layer_src and isinstance(loop.target, ast.Name):
-        return False, "iterating the layer directly gives no 'first cell' test"
+            return False, "loop body does not take parent = %s[%s]" % (lay, i)
+        parent = norm_src(pdef[0].targets[0])
+    elif it.startswith("enumerate(") and it.endswith(")") and isinstance(loop.target, ast.Tuple) and len(loop.target.elts) == 2:
+        lay = it[len("enumerate("):-1]
+        i, parent = norm_src(loop.target.elts[0]), norm_src(loop.target.elts[1])
+        snap = local.get(lay, "")
+        inner = None
+        for w in ("list(", "tuple("):
+            if snap.startswith(w) and snap.endswith(")"):
+                inner = snap[len(w):-1]
+        if snap.endswith("[:]"):
+            inner = snap[:-3]
+        if inner is None or not is_deepest_layer_expr(inner, True):
+            return False, ("the loop iterates '%s', which is not a snapshot of the deepest layer taken before the loop (the live layer list "
+                           "would be safe only while no cell is appended to it)" % lay)
     else:
         return False, "loop does not range over the deepest layer"
-    if len(calls) != 2:
-        return False, "expected one new-layer call and one extend call, found %d" % len(calls)
-    fcx = fc
+    calls = calls_in(loop, "make_children")
+    if not calls:
+        return False, "no expansion in the loop"
     seen = {}
     for c in calls:
         X = get_arg(c, 0, "parent")
         Earg = get_arg(c, 1, "newlayer")
-        if norm_src(X) != pvar or not (isinstance(Earg, ast.Constant) and isinstance(Earg.value, bool)):
-            return False, "call %s does not expand the loop's cell with a constant newlayer" % norm_src(c)
-        at = fcx.node_of(c)
-        first = None
-        for atom, t, lab, e in C.facts_at(fcx.cfg, at):
-            op, l, r = atom
-            if op in ("==", "!=") and tuple(sorted((l, r))) == tuple(sorted(("0", i))):
-                first = (op == "==")
-        if first is None or first != Earg.value:
-            return False, "newlayer=%s is not tied to 'first cell of the layer' (i == 0)" % Earg.value
-        seen[Earg.value] = True
+        if norm_src(X) != parent:
+            return False, "call %s does not expand the loop's cell" % norm_src(c)
+        if isinstance(Earg, ast.Constant) and isinstance(Earg.value, bool):
+            at = fc.node_of(c)
+            first = None
+            for atom, t, lab, e in C.facts_at(fc.cfg, at):
+                op, l, r = atom
+                if op in ("==", "!=") and tuple(sorted((l, r))) == tuple(sorted(("0", i))):
+                    first = (op == "==")
+            if first is None or first != Earg.value:
+                return False, "newlayer=%s is not tied to 'first cell of the layer' (%s == 0)" % (Earg.value, i)
+            seen[Earg.value] = True
+        elif Earg is not None and C.atom_of(Earg, True) == ("==", "0", i) or (Earg is not None and C.atom_of(Earg, True)[0] == "==" and
+                                                                         set(C.atom_of(Earg, True)[1:]) == {"0", i}):
+            if len(calls) != 1 or fc.cfg.guards(fc.node_of(c)):
+                return False, "the single expansion call is conditional"
+            seen[True] = seen[False] = True
+        else:
+            return False, "newlayer argument '%s' is not 'first cell of the layer'" % (norm_src(Earg) if Earg is not None else None)
     if set(seen) != {True, False}:
         return False, "both newlayer values must occur"
-    return True, ("deepen expands each cell of the deepest layer (depth read before the loop) once; newlayer=True exactly "
-                  "for the first, whose call increments the depth; the cells of the deepest layer are leaves")
+    if any(isinstance(x, ast.Call) and method_name(x) == "make_children" for s in loop.body for x in ast.walk(s)
+           if isinstance(s, (ast.For, ast.While))):
+        return False, "expansion inside a nested loop"
+    return True, ("deepen expands each cell of the deepest layer (fixed before the loop) once; newlayer is true exactly for the first, whose "
+                  "call increments the depth; the cells of the deepest layer are leaves")
 
 
 # ---------------------------------------------------------------------------
